@@ -43,10 +43,10 @@ pub fn run(cases: &[Vec<String>]) {
     }
 }
 
-fn req_text(method: &str, cseq_method: &str, tp: &str) -> Vec<u8> {
+fn req_text(method: &str, cseq_method: &str, tp: &str, branch: &str) -> Vec<u8> {
     format!(
-        "{m} sip:me@10.0.0.1 SIP/2.0\r\nVia: SIP/2.0/{tp} 10.9.9.9:5060;branch=z9hG4bKsrv1\r\nVia: SIP/2.0/UDP 10.8.8.8;branch=z9hG4bKup\r\nFrom: <sip:peer@example.org>;tag=pf\r\nTo: <sip:me@example.org>\r\nCall-ID: srv-call\r\nCSeq: 9 {cm}\r\nMax-Forwards: 70\r\nContent-Length: 0\r\n\r\n",
-        m = method, cm = cseq_method, tp = tp
+        "{m} sip:me@10.0.0.1 SIP/2.0\r\nVia: SIP/2.0/{tp} 10.9.9.9:5060{branch}\r\nVia: SIP/2.0/UDP 10.8.8.8;branch=z9hG4bKup\r\nFrom: <sip:peer@example.org>;tag=pf\r\nTo: <sip:me@example.org>\r\nCall-ID: srv-call\r\nCSeq: 9 {cm}\r\nMax-Forwards: 70\r\nContent-Length: 0\r\n\r\n",
+        m = method, cm = cseq_method, tp = tp, branch = branch
     )
     .into_bytes()
 }
@@ -88,8 +88,14 @@ pub async fn run_case(case: Vec<String>) -> String {
     let endpoint = builder.build();
 
     let method = if kind == "inv" { "INVITE" } else { "OPTIONS" };
-    let req = req_text(method, method, tpname);
-    let ack = req_text("ACK", "ACK", tpname);
+    // top-Via branch of the peer: RFC 3261 style (magic cookie), RFC 2543 style (no cookie) or none at all
+    let branch = match case.get(9).map(|s| s.as_str()) {
+        Some("legacy") => ";branch=776asdhds",
+        Some("none") => "",
+        _ => ";branch=z9hG4bKsrv1",
+    };
+    let req = req_text(method, method, tpname, branch);
+    let ack = req_text("ACK", "ACK", tpname, branch);
     assert!(inject(&endpoint, &req, source, &tp));
     settle_now().await;
     let mut request = taken.lock().pop().expect("request not delivered to the layer");
